@@ -11,7 +11,7 @@ for log in logs:
     if os.path.exists(log):
         lines += open(log, errors='replace').read().split('\n')
 for line in lines:
-    m = re.match(r'^(\S+-[abcd]|self-\S+) (C\d\d) rc=(\d+)\s*(?:VIOLATION \S+ \S+\s+fingerprint: (.*?)\s+cases: (\d+))?', line)
+    m = re.match(r'^(\S+-[abcdef]|self-\S+) (C\d\d) rc=(\d+)\s*(?:VIOLATION \S+ \S+\s+fingerprint: (.*?)\s+cases: (\d+))?', line)
     if not m:
         continue
     seed, chk, rc, fp, n = m.groups()
